@@ -108,6 +108,7 @@ type parked struct {
 	gid    int64
 	rel    chan int
 	choose int // >0: wants a choice in [0,choose)
+	where  string
 }
 
 // Action is a simulator-side event (fault, scripted step) that becomes
@@ -319,8 +320,32 @@ func (s *Sim) Park(label string) {
 		s.mu.Unlock()
 	}
 	p := &parked{label: label, gid: g, rel: make(chan int, 1)}
+	if s.traceOn {
+		p.where = callerChain()
+	}
 	s.parkCh <- p
 	<-p.rel
+}
+
+func callerChain() string {
+	pc := make([]uintptr, 12)
+	n := runtime.Callers(3, pc)
+	fr := runtime.CallersFrames(pc[:n])
+	var out []string
+	for {
+		f, more := fr.Next()
+		if !strings.Contains(f.Function, "simhook.") && !strings.Contains(f.Function, "verif/sim.") {
+			fn := f.Function
+			if i := strings.LastIndex(fn, "/"); i >= 0 {
+				fn = fn[i+1:]
+			}
+			out = append(out, fn)
+		}
+		if !more || len(out) >= 4 {
+			break
+		}
+	}
+	return strings.Join(out, "<")
 }
 
 // Label returns how often a named yield point was reached.
@@ -554,6 +579,9 @@ func (s *Sim) Run(app func()) {
 					v = s.Sched.Intn(e.p.choose)
 				}
 				s.tracef("g %s %d/%d c%d", e.p.label, k, len(ev), v)
+				if s.traceOn {
+					fmt.Fprintf(os.Stderr, "    gid=%d %s\n", e.p.gid, e.p.where)
+				}
 				e.p.rel <- v
 			case 1:
 				n := s.Net.deliver(e.d)
